@@ -444,11 +444,14 @@ def b_struct_pack(ex, state, args, kwargs, sv):
     f = fmt.t.as_string()
     if f in _FMT and len(args) == 2:
         n = _FMT[f]
-        v = ex.num(args[1])
-        if v is None:
-            ex.raise_if(state, z3.BoolVal(True), "struct.error")
-        ex.raise_if(state, z3.Or(v < 0, v >= 256 ** n), "struct.error")
-        return VBytes(be_bytes(v, n))
+
+        def one(a):
+            v = ex.num(a)
+            if v is None or isinstance(a, VReal):
+                ex.raise_if(state, z3.BoolVal(True), "struct.error")
+            ex.raise_if(state, z3.Or(v < 0, v >= 256 ** n), "struct.error")
+            return VBytes(be_bytes(v, n))
+        return ex.dist(state, [args[1]], one)
     if f in ("!BBBB", ">BBBB", "BBBB"):
         ts = []
         for a in args[1:]:
